@@ -37,7 +37,7 @@ def build_flavour(ctx, flavour, targets=("objsim",)):
         if p.returncode != 0:
             sys.stderr.write(p.stdout + p.stderr)
             raise SystemExit(2)
-        p = subprocess.run(["make", "-C", os.path.join(ctx.V, "sim"), "FLAVOUR=" + flavour, "REPO=" + ctx.repo, "B=" + ctx.B, "-j16"] + list(targets),
+        p = subprocess.run(["make", "-C", os.path.join(ctx.V, "sim"), "FLAVOUR=" + flavour, "REPO=" + ctx.repo, "B=" + ctx.B, "LINKSAN=%d" % (flavour == "asan"), "-j16"] + list(targets),
                            capture_output=True, text=True)
         if p.returncode != 0:
             sys.stderr.write(p.stdout[-4000:] + p.stderr[-8000:])
